@@ -15,13 +15,14 @@ def step (s : Unit) (op ans : List String) : Unit × String :=
   | ["failat", _] | ["failfrom", _] | ["failoff"] => (s, if ans = ["ok"] then "ok" else "bad answer")
   | ["end"] =>
     (s, if ans.take 3 = ["end", "live=0", "leaked=0"] then "ok"
-        else "bad memory still allocated after the objects were released and the exit handlers ran")
+        else "bad memory still allocated (live) or a registration left behind (leaked) after the objects were released and the exit handlers ran")
   | _ =>
     match ans.find? (·.startsWith "BAD=") with
     | some b => (s, "bad " ++ b)
     | none =>
       match ans.head?, natField ans "rf" with
       | some "ok", some _ => (s, "ok")
+      | some "skip", _ => (s, if ans = ["skip"] then "ok" else "bad answer")
       | some "fail", some rfn => (s, if rfn > 0 then "ok" else "bad failure reported although no allocation was refused")
       | _, _ => (s, "bad unparsable answer")
 
